@@ -16,6 +16,8 @@ def plan(ctx):
                           desc="rules.p_error raises ParserError for every token and for None (end of input)"))
     obs.append(Obligation("syntax.t_error", "xh", "c16", "t_error_any", timeout=T, bounds="remaining text 1..3 chars",
                           desc="lexer.t_error raises ParserError"))
+    obs.append(Obligation("syntax.t_error.chars", "xh", "c16", "t_error_chars", timeout=T, bounds="18 concrete offending characters (controls, NBSP, ZWSP, lone surrogate, U+10FFFF, ...)",
+                          desc="lexer.t_error raises ParserError whatever the offending character is"))
     obs.append(Obligation("syntax.reserved", "xh", "c16", "reserved_word", timeout=T, bounds="keyword text <= 3 chars",
                           desc="reserved-word production raises ParserError"))
     for p in nodes.kind_params():
@@ -23,6 +25,12 @@ def plan(ctx):
             oid = f"node.{p['kind']}" + (f".{p['op']}" if p['op'] else "")
             obs.append(Obligation(oid, "xh", "c16", "node_failure", param=p, timeout=T,
                                   bounds="name bound or unbound (symbolic)", desc="unbound name / unsupported operator => ParserError"))
+    from sqv.harness import txt
+    for i, prog in enumerate(txt.PROGRAMS):
+        obs.append(Obligation(f"txt.only_parser_errors.p{i}", "xh", "txt", "error_line", param={"program": i, "class_only": True}, timeout=T * 4,
+                              bounds="one of 12 concrete programs; stray text from 12 samples (brackets, illegal characters, reserved word, unterminated quote, NUL) inserted at, "
+                                     "or the text truncated at, every token boundary, under LF / CRLF / ; variants (finite domain enumerated through the solver; real lexer+parser)",
+                              desc=f"program {i} damaged at every token boundary: parse returns or raises ParserError, nothing else"))
     obs += lrc_obligations(ctx, ["consistency"], prefix="lrc.")
     return {
         "precheck": lrc_precheck,
